@@ -4,6 +4,7 @@ use vcore::*;
 
 mod simd {
     pub const VARIANT: &str = "simd";
+    pub const VOLUME_DIV: u32 = 1;
     use ::glam_simd as glam;
     include!(concat!(env!("CARGO_MANIFEST_DIR"), "/../apisupport/api_support.rs"));
     include!(concat!(env!("CARGO_MANIFEST_DIR"), "/../gen/api_table_sse2.rs"));
@@ -12,14 +13,27 @@ mod simd {
 #[cfg(not(feature = "core"))]
 mod scalar {
     pub const VARIANT: &str = "scalar";
+    pub const VOLUME_DIV: u32 = 1;
     use ::glam_scalar as glam;
     include!(concat!(env!("CARGO_MANIFEST_DIR"), "/../apisupport/api_support.rs"));
     include!(concat!(env!("CARGO_MANIFEST_DIR"), "/../gen/api_table_scalar.rs"));
     include!("suite.rs");
 }
+/// `debug-glam-assert` without debug assertions is documented as a build without assertions: the same totality
+/// rule applies (an eighth of the volume; left out of the profiles that do enable debug assertions)
+#[cfg(not(feature = "core"))]
+mod dbg {
+    pub const VARIANT: &str = "simd+debug-glam-assert(no debug assertions)";
+    pub const VOLUME_DIV: u32 = 8;
+    use ::glam_dbgassert as glam;
+    include!(concat!(env!("CARGO_MANIFEST_DIR"), "/../apisupport/api_support.rs"));
+    include!(concat!(env!("CARGO_MANIFEST_DIR"), "/../gen/api_table_sse2.rs"));
+    include!("suite.rs");
+}
 #[cfg(feature = "core")]
 mod core_simd {
     pub const VARIANT: &str = "core";
+    pub const VOLUME_DIV: u32 = 1;
     use ::glam_core as glam;
     include!(concat!(env!("CARGO_MANIFEST_DIR"), "/../apisupport/api_support.rs"));
     include!(concat!(env!("CARGO_MANIFEST_DIR"), "/../gen/api_table_coresimd.rs"));
@@ -32,6 +46,10 @@ fn main() {
     subs.extend(simd::subs(&args));
     #[cfg(not(feature = "core"))]
     subs.extend(scalar::subs(&args));
+    #[cfg(not(feature = "core"))]
+    if !cfg!(debug_assertions) {
+        subs.extend(dbg::subs(&args));
+    }
     #[cfg(feature = "core")]
     subs.extend(core_simd::subs(&args));
     std::process::exit(main_with("C18", "", &args, subs));
